@@ -174,12 +174,9 @@ Fixpoint mset (k : mkey) (v : jv) (m : msg) : msg :=
   | (k', v') :: r => if mkey_eqb k k' then (k, v) :: r else (k', v') :: mset k v r
   end.
 
-(* del d[k] *)
-Fixpoint mdel (k : mkey) (m : msg) : msg :=
-  match m with
-  | [] => []
-  | (k', v') :: r => if mkey_eqb k k' then r else (k', v') :: mdel k r
-  end.
+(* del d[k] (keys are unique in a dict; every binding of k goes) *)
+Definition mdel (k : mkey) (m : msg) : msg :=
+  filter (fun kv => negb (mkey_eqb k (fst kv))) m.
 
 (* d.update(upd) *)
 Definition mupdate (m upd : msg) : msg :=
@@ -440,18 +437,20 @@ Definition TRACEBACK_SERIALIZER : serializer :=
         true.
 
 (* --- how the library builds messages ------------------------------------------------------ *)
-(* uuid / level / ts: the values the framework supplies for the reserved fields *)
+(* uuid / level / ts: the values the framework supplies for the reserved fields;
+   fields / success / extracted are dicts (keyword arguments, _successFields, the
+   extractor's return value) *)
 
 (* Action._start(fields): fields = the caller's keyword arguments *)
 Definition start_message (atype : jv) (uuid level ts : jv) (fields : msg) : msg :=
-  let f1 := mset (K ACTION_STATUS) STARTED (mdict fields) in
+  let f1 := mset (K ACTION_STATUS) STARTED fields in
   let f2 := mset (K TIMESTAMP) ts f1 in
   let f3 := mupdate f2 [(K TASK_UUID, uuid); (K ACTION_TYPE, atype)] in
   mset (K TASK_LEVEL) level f3.
 
 (* Action.finish(None): success = what add_success_fields accumulated *)
 Definition success_message (atype : jv) (uuid level ts : jv) (success : msg) : msg :=
-  let f1 := mset (K ACTION_STATUS) SUCCEEDED (mdict success) in
+  let f1 := mset (K ACTION_STATUS) SUCCEEDED success in
   let f2 := mset (K TIMESTAMP) ts f1 in
   let f3 := mupdate f2 [(K TASK_UUID, uuid); (K ACTION_TYPE, atype)] in
   mset (K TASK_LEVEL) level f3.
@@ -460,7 +459,7 @@ Definition success_message (atype : jv) (uuid level ts : jv) (success : msg) : m
    exc_name / reason are the already-computed strings *)
 Definition failure_message (atype : jv) (uuid level ts : jv) (exc_name reason : string)
            (extracted : msg) : msg :=
-  let f0 := mset (K EXCEPTION_FIELD) (JStr exc_name) (mdict extracted) in
+  let f0 := mset (K EXCEPTION_FIELD) (JStr exc_name) extracted in
   let f1 := mset (K REASON_FIELD) (JStr reason) f0 in
   let f2 := mset (K ACTION_STATUS) FAILED f1 in
   let f3 := mset (K TIMESTAMP) ts f2 in
@@ -469,7 +468,7 @@ Definition failure_message (atype : jv) (uuid level ts : jv) (exc_name reason : 
 
 (* Action.log(message_type, **fields) as used by MessageType.log / log_message *)
 Definition log_message (mtype : jv) (uuid level ts : jv) (fields : msg) : msg :=
-  let f1 := mset (K TIMESTAMP) ts (mdict fields) in
+  let f1 := mset (K TIMESTAMP) ts fields in
   let f2 := mset (K TASK_UUID) uuid f1 in
   let f3 := mset (K TASK_LEVEL) level f2 in
   mset (K MESSAGE_TYPE) mtype f3.
